@@ -390,6 +390,8 @@ var verifProfiles = []verifProfile{
 	{machine: 1, minCpus: 1, minBalloons: 2, maxBalloons: 2, share: cfgapi.CPUTopologyLevelNuma, spreadPods: true},
 	// sharing per core, two kernel-isolated CPUs
 	{machine: 3, minCpus: 1, maxCpus: 3, minBalloons: 1, maxBalloons: 0, share: cfgapi.CPUTopologyLevelCore},
+	// up to two new-balloon-preferring instances with hidden hyperthreads sharing the idle CPUs of the whole system
+	{machine: 0, minCpus: 1, maxCpus: 2, maxBalloons: 2, share: cfgapi.CPUTopologyLevelSystem, preferNew: true, hideHT: true},
 }
 
 // verifConfig builds a configuration with the user balloon types "a" (chosen by
@@ -452,11 +454,22 @@ var verifKinds = []struct{ namespace, annotation string }{
 // balloon annotation), pod (its own, or the pod of container 0: then the
 // namespace is that pod's) and a symbolic CPU request of 0..maxMilli mCPU.
 func (w *verifWorld) newContainer(maxMilli int64) *verifContainer {
+	return w.newContainerOf(-1, maxMilli)
+}
+
+// newContainerOf: as newContainer; fixed >= 0 makes it a container of kind
+// verifKinds[fixed] in its own pod requesting exactly maxMilli mCPU.
+func (w *verifWorld) newContainerOf(fixed int, maxMilli int64) *verifContainer {
 	k := len(w.ctrs)
 	id := "c" + string(rune('0'+k))
-	kind := verifKinds[verifChoice("kind", verifParam("kinds", len(verifKinds)))]
+	var kind struct{ namespace, annotation string }
+	if fixed >= 0 {
+		kind = verifKinds[fixed]
+	} else {
+		kind = verifKinds[verifChoice("kind", verifParam("kinds", len(verifKinds)))]
+	}
 	var pod *verifPod
-	if k > 0 && verifParam("samePod", 1) != 0 && verifChoice("pod", 2) == 1 {
+	if fixed < 0 && k > 0 && verifParam("samePod", 1) != 0 && verifChoice("pod", 2) == 1 {
 		pod = w.ctrs[0].pod
 	} else {
 		pod = &verifPod{name: "p" + id, annotations: map[string]string{}, namespace: kind.namespace, ctime: time.Unix(int64(1000+k), 0)}
@@ -464,8 +477,11 @@ func (w *verifWorld) newContainer(maxMilli int64) *verifContainer {
 	if kind.annotation != "" {
 		pod.annotations[balloonKey+"/container."+id] = kind.annotation
 	}
-	m := int64(verifNondetUint16("mcpu"))
-	verifAssume(verifAnd(m >= 0, m <= maxMilli))
+	m := maxMilli
+	if fixed < 0 {
+		m = int64(verifNondetUint16("mcpu"))
+		verifAssume(verifAnd(m >= 0, m <= maxMilli))
+	}
 	c := &verifContainer{id: id, name: id, pod: pod, milliCPU: m, state: cache.ContainerStateCreated, ctime: time.Unix(int64(1000+k), 0)}
 	w.ctrs = append(w.ctrs, c)
 	w.member = append(w.member, false)
